@@ -4,8 +4,10 @@ from functools import lru_cache
 
 
 class CFG:
-    def __init__(self, body):
+    def __init__(self, body, drop_edges=()):
+        """drop_edges: (from_block, to_block) pairs removed from the graph (feature-absent restriction)"""
         self.body = body
+        drop_edges = set(drop_edges)
         self.blocks = body["blocks"]
         n = len(self.blocks)
         self.n = n
@@ -29,7 +31,7 @@ class CFG:
             # return / unreachable / resume / terminate / tailcall: none
             seen = []
             for x in s:
-                if x not in seen:
+                if x not in seen and (i, x) not in drop_edges:
                     seen.append(x)
             self.succ[i] = seen
             if "unwind" in t:
